@@ -29,6 +29,8 @@ RoundTripFails(ev) ==
   ELSE (IF ev.before.type = ev.after.type THEN {} ELSE {"type"})
   \cup (IF ev.before.dtype = ev.after.dtype THEN {} ELSE {"dtype"})
   \cup (IF ev.before.shape = ev.after.shape /\ ev.array_equal THEN {} ELSE {"array_values"})
+  \* what was loaded, written back to the same store with overwrite and loaded again
+  \cup (IF ev.resaved_equal THEN {} ELSE {"loaded_object_saved_over_its_own_store"})
   \cup (IF Len(ev.before.axes) = Len(ev.after.axes)
            /\ \A i \in 1..Len(ev.before.axes) : SameValue(ev.before.axes[i], ev.after.axes[i]) THEN {} ELSE {"axes_metadata"})
   \cup (IF SameValue(ev.before.metadata, ev.after.metadata) THEN {} ELSE {"metadata"})
